@@ -239,6 +239,10 @@ func init() {
 		}
 		chk := Registry["C14"](tier)
 		r := &SubResult{}
+		// fixed misuse script per instantiated filter arity (outcomes compared across builds)
+		for _, t := range api.FilterTuples {
+			r.Digests = append(r.Digests, fmt.Sprintf("%v: %s", t, queryMisuseScript(t)))
+		}
 		seen := map[string]bool{}
 		for _, sc := range chk.Scenarios {
 			sc.Depth--
@@ -257,4 +261,66 @@ func init() {
 		}
 		return r
 	}
+}
+
+// queryMisuseScript runs a fixed misuse script on a typed query of the tuple and returns the outcome
+// (panicked / returned value) of every call; compared across builds by C20.
+func queryMisuseScript(tuple []ct.Comp) string {
+	x := drv.NewWorld(drv.Config{Cap: 4, Universe: allComps}, nil, nil, 1, drv.Oracle{})
+	cs := ct.Of(tuple...)
+	var rels []model.RelT
+	for _, c := range cs.Rels().List() {
+		rels = append(rels, model.RelT{C: c, T: model.ZeroTarget})
+	}
+	for k := 0; k < 3; k++ {
+		if cs == 0 {
+			x.Exec(model.Op{K: model.OpNewPlain})
+		} else {
+			x.Exec(model.Op{K: model.OpNew, Path: model.PathUnsafe, Cs: cs, T: rels})
+		}
+	}
+	fl := api.TypedFilter(x.Env, tuple)
+	out := ""
+	rec := func(name string, f func() string) {
+		out += name + "=" + tryCall(f) + ";"
+	}
+	probe := func(q api.Query, tag string) {
+		rec(tag+"Entity", func() string { return entStr(q.Entity()) })
+		rec(tag+"Get", func() string {
+			s := ""
+			for k, p := range q.Get() {
+				tok, _ := ct.Read(tuple[k], p)
+				if !ct.HasValue(tuple[k]) {
+					_ = *(*struct{})(p)
+				}
+				s += fmt.Sprint(tok) + ","
+			}
+			return s
+		})
+		if len(tuple) > 0 && cs.Rels() != 0 {
+			rec(tag+"GetRelation", func() string { return entStr(q.GetRelation(cs.Rels().List()[0])) })
+		}
+	}
+	q := fl.Query(nil)
+	probe(q, "fresh.")
+	rec("Next1", func() string { return fmt.Sprint(q.Next()) })
+	probe(q, "row0.")
+	rec("Next2", func() string { return fmt.Sprint(q.Next()) })
+	q.Close()
+	probe(q, "closed.")
+	rec("closed.Next", func() string { return fmt.Sprint(q.Next()) })
+	rec("closed.Next again", func() string { return fmt.Sprint(q.Next()) })
+	probe(q, "closed2.")
+	rec("closed.Count", func() string { return fmt.Sprint(q.Count()) })
+	q2 := fl.Query(nil)
+	n := 0
+	for q2.Next() && n < 10 {
+		n++
+	}
+	out += fmt.Sprintf("visited=%d;", n)
+	probe(q2, "done.")
+	rec("done.Next", func() string { return fmt.Sprint(q2.Next()) })
+	probe(q2, "done2.")
+	rec("locked", func() string { return fmt.Sprint(x.W.IsLocked()) })
+	return out
 }
